@@ -278,7 +278,10 @@ class PropertyRun:
                 if confirmed:
                     continue
                 for ob in obs:
-                    if ob.result == 'sat' and not getattr(ob, 'approx', True) and ob.kind not in ('loop-pres',):
+                    if ob.result == 'sat' and not getattr(ob, 'approx', True) and ob.kind not in ('loop-pres',) and not self.in_baseline(ob.name):
+                        self.undecided.append({'obligation': ob.name, 'reason': 'refuted by the solver, no concrete failing input found, and not an obligation that was '
+                                                                                'discharged on the unchanged tree (baseline/obligations.json): no verdict'})
+                    elif ob.result == 'sat' and not getattr(ob, 'approx', True) and ob.kind not in ('loop-pres',):
                         info = {'property': self.pid, 'obligation': ob.name, 'function': rep.qualname, 'cfg': cfg,
                                 'solver': {'result': 'sat', 'backend': ob.backend, 'seconds': round(ob.seconds, 3),
                                            'goal': str(ob.goal)[:2000]}, 'no_failing_input_found': True}
@@ -288,6 +291,17 @@ class PropertyRun:
                     else:
                         why = 'invariant not inductive / obligation downstream of a havoc refuted (sat)' if ob.result == 'sat' else '%s (%s)' % (ob.result, ob.detail)
                         self.undecided.append({'obligation': ob.name, 'reason': why})
+
+    def in_baseline(self, name):
+        """was this obligation discharged on the unchanged tree?  (no baseline file: every obligation counts)"""
+        b = getattr(self, '_baseline', None)
+        if b is None:
+            try:
+                b = set(json.load(open(os.path.join(VERIF, 'baseline', 'obligations.json'))).get(self.pid, []))
+            except Exception:
+                b = False
+            self._baseline = b
+        return True if b is False else name in b
 
     def contract_of(self, rep):
         return getattr(rep, 'contract', None) or self.world.contracts[rep.qualname]
